@@ -144,6 +144,21 @@ example (O : Oracle) : parseProperty O [Ex.idt "x", Ex.sp, Ex.idt "y"] = none :=
   simp [parseProperty, upto, uptoLoop, Mode.init, bump, stop, Cnt.isZero, endTok, Mode.ends, Mode.endString,
     isInfixOf, Ex.idt, Ex.sp, CssVerif.Proto.cps]
 
+-- the shape of seeded change C04-3: `foo {z} color: blue` — IDENT first, a `{…}` block at depth 0, then
+-- declaration-looking text; it is quiet in mode `semicolon` (a `}` is no end token there), so T4.2 applies …
+example : Quiet .semicolon (startStack (Ex.idt "foo"))
+      [Ex.sp, Ex.lbrace, Ex.idt "z", Ex.rbrace, Ex.sp, Ex.idt "color", Ex.colon, Ex.idt "blue"] = true
+    ∧ nest (startStack (Ex.idt "foo"))
+      [Ex.sp, Ex.lbrace, Ex.idt "z", Ex.rbrace, Ex.sp, Ex.idt "color", Ex.colon, Ex.idt "blue"] = some [] := by
+  decide
+-- … and it is rejected as a declaration for every oracle (the name part `foo {z} color` contains a CHAR)
+example (O : Oracle) : parseProperty O
+    [Ex.idt "foo", Ex.sp, Ex.lbrace, Ex.idt "z", Ex.rbrace, Ex.sp, Ex.idt "color", Ex.colon, Ex.idt "blue"]
+    = none := by
+  simp [parseProperty, parseName, nameStep, parseLoop_cons', parseLoop_nil, upto, uptoLoop, Mode.init, bump, stop,
+    Cnt.isZero, endTok, Mode.ends, Mode.endString, isInfixOf, Ex.idt, Ex.sp, Ex.lbrace, Ex.rbrace, Ex.colon, Ex.ch,
+    CssVerif.Proto.cps]
+
 /-! ## T4.3 statement containment -/
 
 /-- **Locality of the sheet dispatcher**: after complete statements the rest is parsed from the state they
@@ -190,6 +205,16 @@ theorem dropped_misplaced (O : Oracle) (M : List Cps) (st : SheetSt) (t : Tok) (
        ∨ (t.typ = .namespaceSym ∧ st.expected > 2) ∨ (t.typ = .variablesSym ∧ st.expected > 2)) :
     stmtEffect O M st t stmt = st := by
   rcases h with ⟨h, he⟩ | ⟨h, he⟩ | ⟨h, he⟩ | ⟨h, he⟩ <;> simp [stmtEffect, h, he]
+
+/-- in particular (seeded change C04-1): a misplaced `@namespace` — also one that declares a default
+namespace or re-declares a prefix — leaves the prefix map the later selectors are resolved with, and the
+order level, exactly as they were: everything after it is parsed as if it were not there. -/
+theorem misplaced_namespace_is_inert (O : Oracle) (M : List Cps) (st : SheetSt) (t : Tok) (stmt s₂ : List Tok)
+    (ht : t.typ = .namespaceSym) (he : st.expected > 2) :
+    (stmtEffect O M st t stmt).nsmap = st.nsmap ∧ (stmtEffect O M st t stmt).expected = st.expected
+      ∧ sheetLoop O M (stmtEffect O M st t stmt) s₂ = sheetLoop O M st s₂ := by
+  rw [dropped_misplaced O M st t stmt (Or.inr (Or.inr (Or.inl ⟨ht, he⟩)))]
+  exact ⟨rfl, rfl, rfl⟩
 
 /-- dropped (iii): a malformed `@namespace` (since fix 8eade3e the order level is kept). -/
 theorem dropped_malformed_namespace (O : Oracle) (M : List Cps) (st : SheetSt) (t : Tok) (stmt : List Tok)
